@@ -78,6 +78,8 @@ type pathState struct {
 	dom       map[*Term]*byteDom
 	entangled map[*Term]bool
 	domDecided int
+	captureFmt bool
+	captures   [][]value
 }
 
 func (ps *pathState) inReplay() bool { return ps.pos < len(ps.prefix) }
